@@ -18,7 +18,7 @@ MC_PoolR == << <<R(1), R(-2), R(3), R(0), R(-4), R(5), R(2), R(-1)>>,
                <<R(1), RQ(-1, 2), R(3), RQ(5, 2), R(0), R(-4), RQ(3, 2), R(2)>> >>
 MC_PoolC == << <<Z(3, 4), R(-2), Z(0, 1), Z(-4, 3), R(0), Z(4, -3), Z(0, -2), R(5)>>,
                <<Z(3, -4), ZQ(3, 4, 2), R(-1), Z(0, 2), ZQ(-4, 3, 2), R(0), Z(-3, -4), RQ(1, 2)>> >>
-MC_MaxChain == 2
+MC_MaxChain == IF Thorough THEN 3 ELSE 2
 
 E1 == Env(QOne, QOne)           \* rn / cn
 EW == Env(Q(4, 1), QOne)        \* rn(..., weighting=4): no cell volume
@@ -128,6 +128,9 @@ RootsDflt ==
   \cup { [Mk(k, sp, e) EXCEPT !.v = VPool(sp, off)] : k \in {"inner", "dist"}, sp \in DSpaces, e \in DEnvs, off \in {0, 1} }
   \cup { Mk("norm", sp, e) : sp \in DSpaces, e \in DEnvs }
   \cup UNION { { [Mk("const", sp, e) EXCEPT !.v = v] : v \in {VPool(sp, 0), ZeroEl(sp)}, e \in {E1, ED} } : sp \in DSpaces }
+  \* ConstantOperator(constant, domain=, range=) with a domain that differs from the range; scalar multiplication on the field
+  \cup { [Mk("const", sp, E1) EXCEPT !.ran = Plain(S3, "R"), !.v = v] : sp \in { d \in DSpaces : d.fld = "R" }, v \in {VPool(Plain(S3, "R"), 1), ZeroEl(Plain(S3, "R"))} }
+  \cup UNION { { [Mk("mulC", Fld(f), E1) EXCEPT !.a = a] : a \in Scal(f) } : f \in Flds }
   \cup UNION { { [Mk("zero", sp, e) EXCEPT !.ran = r] : e \in {E1, ED}, r \in {sp, Plain(S3, "C"), Plain(<<2, 2>>, "R")} } : sp \in DSpaces }
 RootsCplx ==
   { [Mk("reim", sp, e) EXCEPT !.a = ab[1], !.b = ab[2]] : sp \in DSpaces, e \in DEnvs, ab \in {<<COne, CZero>>, <<CZero, COne>>} }
